@@ -496,6 +496,11 @@ void h_sa_smooth(void)
   REQUIRES(crs_rows_distinct(A) && crs_unique_diag(A));
   REQUIRES(crs_wf(T, NMAX, NMAX, ZTMAX) && T->nrows == A->nrows && crs_rows_distinct(T) && crs_row_len_le(T, TROWMAX));
   REQUIRES(i0 < A->nrows && c0 < T->ncols);
+#ifdef ROW_FULL
+  /* sub-domain kept as its own (cheaper) variant: the watched row is full, i.e. it can hold a weak AND a strong off-diagonal coupling at
+   * the same time -- the only shape in which the lumping of the weak couplings into the filtered diagonal is visible in the values of P */
+  REQUIRES(A->ptr[i0 + 1] - A->ptr[i0] == (ptrdiff_t)NMAX);
+#endif
   aggr.count = T->ncols; aggr.id = 0; aggr.id_n = 0;
   aggr.strong_connection = (char *)malloc(CAP_NNZ); aggr.sc_n = (size_t)A->ptr[A->nrows];
   MIRROR_CRS(A, A); MIRROR_CRS(T, T);
@@ -529,10 +534,11 @@ void h_sa_smooth(void)
     types=['value_type', 'scalar_type'],
     # measured (minisat, load 8): n == 3 / nnz <= 5 / one entry per tentative row: 190 s (70 s of it index safety + wf alone);
     # n == 3 / nnz <= 4: 38 s; n <= 2 / nnz <= 4 / tentative rows <= 2 entries: 34 s; n == 3 with general tentative rows: > 900 s
-    variants=[{'NMAX': 3, 'ZMAX': 4, 'ZTMAX': 3, 'TROWMAX': 1, 'NROWS': 3}, {'NMAX': 2, 'ZMAX': 4, 'ZTMAX': 3, 'TROWMAX': 2}],
+    variants=[{'NMAX': 3, 'ZMAX': 4, 'ZTMAX': 3, 'TROWMAX': 1, 'NROWS': 3}, {'NMAX': 2, 'ZMAX': 4, 'ZTMAX': 3, 'TROWMAX': 2},
+              {'NMAX': 3, 'ZMAX': 5, 'ZTMAX': 3, 'TROWMAX': 1, 'NROWS': 3, 'ROW_FULL': 1}],
     thorough_variants=[{'NMAX': 3, 'ZMAX': 5, 'ZTMAX': 3, 'TROWMAX': 1, 'NROWS': 3}, {'NMAX': 2, 'ZMAX': 4, 'ZTMAX': 4, 'TROWMAX': 2}],
-    bound_text='two variants: (a) n == 3, nnz <= 4 (thorough 5), tentative prolongation with at most one entry per row (the '
-               'piecewise-constant case); (b) n <= 2, nnz <= 4, tentative rows with up to 2 entries, nnz(P_tent) <= 3 (thorough 4). '
+    bound_text='three variants: (a) n == 3, nnz <= 4 (thorough 5), tentative prolongation with at most one entry per row (the '
+               'piecewise-constant case); (a2) n == 3, nnz <= 5 with the watched row full (a weak and a strong coupling in one row); (b) n <= 2, nnz <= 4, tentative rows with up to 2 entries, nnz(P_tent) <= 3 (thorough 4). '
                'One stored diagonal per row, no duplicate column in a row of A or P_tent, m <= n columns; every 0/1 strong-connection '
                'flag array; values, relax, rho uninterpreted; estimate_spectral_radius on/off; all symbolic',
     assumptions=A_BOUNDED + [A_NODUP,
